@@ -38,7 +38,11 @@ SPEC = {
     "tie": "T2: tools/facts_c11 regenerates the lock skeleton of manager.go (lock/unlock/TryRLock/map/callback/defer/yield order, if-conditions) and Props.lean proves it equal to the skeleton the model was written against; T3: forced schedules generated from the Lean model are executed on the real Manager at the verifYield points (quick: random walks incl. blocked-thread probes and evictions; thorough: every transition of the reachable state graph of the listed small configurations) and observation texts of model and implementation are compared; the property oracle is evaluated on the real traces",
     "required_theorems": [
         "Sema.C11.C11_skeleton_with", "Sema.C11.C11_skeleton_commit", "Sema.C11.C11_skeleton_prune", "Sema.C11.C11_skeleton_release",
-        "Sema.C11.C11_released", "Sema.C11.C11_progress", "Sema.C11.C11_no_deadlock", "Sema.C11.C11_failed_dropped", "Sema.C11.C11_replaced_dropped",
+        "Sema.C11.C11_mutex", "Sema.C11.C11_mutex_overlap", "Sema.C11.C11_private_copy", "Sema.C11.C11_reader_never_blocks_on_cache",
+        "Sema.C11.C11_no_scrapped", "Sema.C11.C11_checked_before_handout", "Sema.C11.C11_dirty_is_scrapped",
+        "Sema.C11.C11_failed_dropped", "Sema.C11.C11_replaced_dropped",
+        "Sema.C11.C11_released", "Sema.C11.C11_evict_harmless", "Sema.C11.C11_evicted_is_rebuilt",
+        "Sema.C11.C11_progress", "Sema.C11.C11_no_deadlock",
         "Sema.C11.C11_deadlock_witness_pinned", "Sema.C11.C11_deadlock_witness_reorder_failing_reader",
         "Sema.C11.C11_deadlock_witness_reorder_commit", "Sema.C11.C11_mutex_witness_pinned", "Sema.C11.C11_leak_witness_two_fixes",
     ],
